@@ -210,6 +210,18 @@ class Integer(_PrimitiveType):
             return NotImplemented
 
     @_intrinsic
+    def _cohdl_rtruncdiv_(self, lhs: int | Integer) -> Integer:
+        if isinstance(lhs, (int, Integer)):
+            lhs = Integer.decay(lhs)
+            rhs = self._val
+
+            if rhs == 0:
+                return Integer()
+            return Integer(_int_truncdiv(lhs, rhs))
+        else:
+            return NotImplemented
+
+    @_intrinsic
     def __mod__(self, rhs: int | Integer) -> Integer:
 
         if isinstance(rhs, (int, Integer)):
@@ -241,6 +253,20 @@ class Integer(_PrimitiveType):
         if isinstance(rhs, (int, Integer)):
             lhs = self._val
             rhs = Integer.decay(rhs)
+
+            if rhs == 0:
+                return Integer()
+
+            return Integer(lhs - rhs * _int_truncdiv(lhs, rhs))
+        else:
+            return NotImplemented
+
+    @_intrinsic
+    def _cohdl_rrem_(self, lhs: int | Integer) -> Integer:
+
+        if isinstance(lhs, (int, Integer)):
+            lhs = Integer.decay(lhs)
+            rhs = self._val
 
             if rhs == 0:
                 return Integer()
